@@ -507,6 +507,8 @@ type LoopSpec struct {
 	Invariants []Clause
 	Decreases  *Clause
 	Unroll     int
+	Exits      []Clause // hold on every jump that leaves the loop
+	ExitAssume []Clause // ASSUMED (not proved, listed) on every jump that leaves the loop
 }
 
 type Contract struct {
@@ -841,6 +843,18 @@ func (c *Contract) addClause(kw, rest string) error {
 				return err
 			}
 			ls.Decreases = &cl
+		case "exit":
+			cl, err := parseClause(arg)
+			if err != nil {
+				return err
+			}
+			ls.Exits = append(ls.Exits, cl)
+		case "exitassume":
+			cl, err := parseClause(arg)
+			if err != nil {
+				return err
+			}
+			ls.ExitAssume = append(ls.ExitAssume, cl)
 		case "unroll":
 			k, err := strconv.Atoi(arg)
 			if err != nil {
